@@ -180,9 +180,9 @@ def verdictReq (hop : List Str) (repl : Str → Str) (u : Upstream) (r o : Reque
 
 def sameMembers (a b : List Str) : Bool := a.all b.contains && b.all a.contains && a.length == b.length
 
-def expectRespVals (hop skip : List Str) (repl : Str → Str) (down : Rules) (pre : Hdr) (res : Response) (k : Str) : List Str :=
+def expectRespVals (hop skip : List Str) (repl : Str → Str) (down : Rules) (dr : Repls) (pre : Hdr) (res : Response) (k : Str) : List Str :=
   let s1 := if isHop hop res.header k then [] else res.header.vals k
-  let s2 := ruleEffect repl down k s1
+  let s2 := replEffect repl dr k (ruleEffect repl down k s1)
   if pre.has k then
     if s2 == [] then pre.vals k
     else if skip.contains k then pre.vals k
@@ -190,24 +190,25 @@ def expectRespVals (hop skip : List Str) (repl : Str → Str) (down : Rules) (pr
     else s2
   else s2
 
-def respKeys (hop : List Str) (down : Rules) (pre : Hdr) (res : Response) (obs : Hdr) : List Str :=
+def respKeys (hop : List Str) (down : Rules) (dr : Repls) (pre : Hdr) (res : Response) (obs : Hdr) : List Str :=
   res.header.keys ++ obs.keys ++ pre.keys ++ (down.map fun x => ruleTarget x.1) ++ hop
-    ++ (connListed res.header).map canon
+    ++ (connListed res.header).map canon ++ replTargets dr
 
-def respHeaderClass (hop : List Str) (down : Rules) (res : Response) (k : Str) : String :=
+def respHeaderClass (hop : List Str) (down : Rules) (dr : Repls) (res : Response) (k : Str) : String :=
   if isHop hop res.header k then "hop-leaked"
   else if (down.map fun x => ruleTarget x.1).contains k then "downstream-rule"
+  else if (replTargets dr).contains k then "downstream-replacement"
   else "end-to-end-header"
 
 /-- status and header part of the response-side property -/
-def verdictRespHead (hop skip : List Str) (repl : Str → Str) (down : Rules) (pre : Hdr) (res : Response)
+def verdictRespHead (hop skip : List Str) (repl : Str → Str) (down : Rules) (dr : Repls) (pre : Hdr) (res : Response)
     (status : Nat) (hdr : Hdr) : String :=
   if status != res.status then "bad:status:changed"
   else
-    match (respKeys hop down pre res hdr).find? (fun k =>
+    match (respKeys hop down dr pre res hdr).find? (fun k =>
         if k == sTrailer && res.announced.length > 0 then !sameMembers (hdr.vals k) res.announced
-        else hdr.vals k != expectRespVals hop skip repl down pre res k) with
-    | some k => "bad:" ++ respHeaderClass hop down res k ++ ":" ++ String.ofList (k.map fun c => Char.ofNat c.toNat)
+        else hdr.vals k != expectRespVals hop skip repl down dr pre res k) with
+    | some k => "bad:" ++ respHeaderClass hop down dr res k ++ ":" ++ String.ofList (k.map fun c => Char.ofNat c.toNat)
     | none => "ok"
 
 /-- trailer part: the client receives exactly the backend's trailers -/
@@ -217,9 +218,9 @@ def verdictRespTrailers (res : Response) (trailers : Hdr) : String :=
   | none => "ok"
 
 /-- the response-side property on what the client observed: status, header map, trailers -/
-def verdictResp (hop skip : List Str) (repl : Str → Str) (down : Rules) (pre : Hdr) (res : Response)
+def verdictResp (hop skip : List Str) (repl : Str → Str) (down : Rules) (dr : Repls) (pre : Hdr) (res : Response)
     (status : Nat) (hdr trailers : Hdr) : String :=
-  let v := verdictRespHead hop skip repl down pre res status hdr
+  let v := verdictRespHead hop skip repl down dr pre res status hdr
   if v != "ok" then v else verdictRespTrailers res trailers
 
 end Casket.ProxyMsgSpec
